@@ -176,6 +176,16 @@ def run(ctx: Ctx) -> None:
     same_names = len(groups)
     groups.append([str(VERIF / "corpus" / "C10" / "same_names.py")])  # same short names, different types, looked at by different checks in both orders
     comp_dir = Path(tempfile.mkdtemp(prefix="c10-"))
+    callables = len(groups)
+    # every way a callee's signature is found, after other checks have reported: the whole file, and one file per call (so that each
+    # call is also the first thing its own check reports in a file where another check has reported before it)
+    cal_src = (VERIF / "corpus" / "C10" / "callables.py").read_text()
+    cal_defs, cal_calls = cal_src.split("# ---- calls\n", 1)
+    cal_files = [str(VERIF / "corpus" / "C10" / "callables.py")]
+    for j, line in enumerate(l for l in cal_calls.split("\n") if l and not l.startswith((" ", "def ", "#"))):
+        (comp_dir / f"callable_{j}.py").write_text(cal_defs + line + "\n")
+        cal_files.append(str(comp_dir / f"callable_{j}.py"))
+    groups.append(cal_files)
     n_comp = composed_corpus(ctx, comp_dir / "composed.py")
     ctx.count("composed-idioms", n_comp)
     composed = len(groups)
@@ -196,10 +206,10 @@ def run(ctx: Ctx) -> None:
             continue
         codes = sorted({d[3] for d in full["out"] if d[3]})
         picks = []
-        sample_codes = codes if ctx.tier == "thorough" or gi in (nested, composed, same_names) else rng.sample(codes, min(len(codes), 6 if gi else 10))
+        sample_codes = codes if ctx.tier == "thorough" or gi in (nested, composed, same_names, callables) else rng.sample(codes, min(len(codes), 6 if gi else 10))
         for c in sample_codes:
             picks.append(("only", [c]))
-            if ctx.tier == "thorough" or gi in (nested, composed, same_names) or rng.random() < 0.5:
+            if ctx.tier == "thorough" or gi in (nested, composed, same_names, callables) or rng.random() < 0.5:
                 picks.append(("all-but", [c]))
             if ctx.tier == "thorough" or rng.random() < 0.3:
                 picks.append(("all-ignore", [c]))
